@@ -199,6 +199,12 @@ def render(tab):
     w(",\n".join("  (%s, %s)" % (_s(k), _sl(v)) for k, v in tab["sim_calls"]))
     w("]")
     w("")
+    names = sorted({v for _k, v in tab["ops"]} | {x for _k, vs in tab["virt_forwards"] for x in vs})
+    w("/-- `m ↦ remote_m` for every method name the tables above mention (Perspective Broker prefixes the name) -/")
+    w("def remoteName : List (String × String) := [")
+    w(",\n".join("  (%s, %s)" % (_s(n), _s("remote_" + n)) for n in names))
+    w("]")
+    w("")
     w("structure Engine where")
     w("  name : String")
     w("  /-- `apply_*` methods the class defines -/")
